@@ -5,6 +5,7 @@ p=$1; tests=$2
 src=/tmp/seed-$p; T1=A; T2=B
 if [ "${ROUND:-1}" = "2" ]; then src=/tmp/seed2-$p; T1=C; T2=D; fi
 if [ "${ROUND:-1}" = "3" ]; then src=/tmp/seed3-$p; T1=E; T2=F; fi
+if [ "${ROUND:-1}" = "4" ]; then src=/tmp/seed4-$p; T1=G; T2=H; fi
 for L in A B; do
   if [ $L = A ]; then T=$T1; else T=$T2; fi
   d=/verif/seeded/${p}_$T; mkdir -p $d; cp $src/_seed/$L/patch.diff $src/_seed/$L/demo.py $src/_seed/$L/notes.md $d/
